@@ -173,6 +173,12 @@ func (h *Handler) Handle(cx *layer4.Connection, next layer4.Handler) error {
 	// Set conn as a custom variable on cx.
 	cx.SetVar("l4.proxy_protocol.conn", wrapped)
 
+	// The connection placeholders follow the addresses now in effect.
+	if repl, ok := cx.Context.Value(layer4.ReplacerCtxKey).(*caddy.Replacer); ok {
+		repl.Set("l4.conn.remote_addr", wrapped.RemoteAddr())
+		repl.Set("l4.conn.local_addr", wrapped.LocalAddr())
+	}
+
 	return next.Handle(cx.Wrap(wrapped))
 }
 
